@@ -59,5 +59,7 @@ pub(crate) fn vk_receiver_alive(ex: &CommandExecutor<u64, u64>) -> bool { ex.sen
 /// slot array for the command queue; declare it as a LOCAL of the harness function and attach it, so that the
 /// queued commands live in typed stack memory (see the channel model)
 pub(crate) struct QueueStorage([Option<CommandAcknowledgementPair<u64, u64>>; crossbeam_channel::QCAP]);
-pub(crate) fn vk_slots() -> QueueStorage { QueueStorage([None, None, None, None]) }
+/// never dropped: a command still queued at the end of a harness holds an Arc<CommandAcknowledgement>, whose drop reaches
+/// Waker's function-pointer vtable (CBMC then explores the stashed thread bodies as call targets)
+pub(crate) fn vk_slots() -> core::mem::ManuallyDrop<QueueStorage> { core::mem::ManuallyDrop::new(QueueStorage([None, None, None, None])) }
 pub(crate) fn vk_attach(ex: &CommandExecutor<u64, u64>, slots: &mut QueueStorage) { ex.sender.vk_use_storage(&mut slots.0 as *mut _); }
